@@ -56,7 +56,8 @@ def expected : List Expect := [
   ⟨"app/test_common.go", "TestApp.InitializeFromGenesisStatesWithTimeAndChainIDAndHeight", 0, .cliOrQueryOnly, ""⟩,
   ⟨"x/cdp/keeper/grpc_query.go", "QueryServer.TotalCollateral", 0, .cliOrQueryOnly, ""⟩,
   ⟨"x/cdp/keeper/grpc_query.go", "QueryServer.TotalCollateral", 1, .cliOrQueryOnly, ""⟩,
-  ⟨"x/committee/types/permissions.go", "validateParamChangesAreAllowed", 0, .commutativeFold, "C01_site_param_changes_allowed_perm_invariant"⟩,
+  ⟨"x/committee/types/permissions.go", "validateParamChangesAreAllowed", 0, .commutativeFold, "C01_site_param_keys_known_perm_invariant"⟩,
+  ⟨"x/committee/types/permissions.go", "validateParamChangesAreAllowed", 1, .commutativeFold, "C01_site_param_changes_allowed_perm_invariant"⟩,
   ⟨"x/earn/keeper/grpc_query.go", "queryServer.Vaults", 0, .cliOrQueryOnly, ""⟩,
   ⟨"x/earn/keeper/invariants.go", "VaultSharesInvariant", 0, .commutativeFold, "C01_site_shares_invariant_perm_invariant"⟩,
   ⟨"x/hard/keeper/grpc_query.go", "queryServer.InterestFactors", 0, .cliOrQueryOnly, ""⟩,
@@ -172,7 +173,13 @@ def tallyStep (t : Tally) (kv : String × ValEntry) : Tally :=
 
 def tallyValidators (t0 : Tally) (l : List (String × ValEntry)) : Tally := l.foldl tallyStep t0
 
-/-- `validateParamChangesAreAllowed`: `for k, v := range current { if !allowed k && v ≠ incoming[k] { return false } }; return true` -/
+/-- `validateParamChangesAreAllowed`, first loop (added by the fix "committee param permission must refuse
+    attributes the current value does not have"): `for k := range incoming { if _, ok := current[k]; !ok { return false } }` -/
+def keysAllKnown (inCurrent : String → Bool) : List (String × String) → Bool
+  | [] => true
+  | (k, _) :: rest => if !inCurrent k then false else keysAllKnown inCurrent rest
+
+/-- `validateParamChangesAreAllowed`, second loop: `for k, v := range current { if !allowed k && v ≠ incoming[k] { return false } }; return true` -/
 def paramChangesAllowed (allowed : String → Bool) (incoming : String → Option String) : List (String × String) → Bool
   | [] => true
   | (k, v) :: rest => if !allowed k && incoming k != some v then false else paramChangesAllowed allowed incoming rest
